@@ -266,7 +266,16 @@ func (cr *checkRun) writeEvidence(seed, nObl, discharged, nViol, nKF int, unledg
 	var samples []map[string]string
 	for _, r := range cr.results {
 		loops := len(analyzeCFG(r.Fn).loops)
-		funcs = append(funcs, map[string]interface{}{"function": r.ID, "arith": r.Arith, "loops": loops, "inlined": r.Inlined, "callee_contracts_used": r.Called, "file": posOf(r.Fn, r.Fn.Pos())})
+		var reqs []string
+		if r.FC != nil {
+			for _, rq := range r.FC.Requires {
+				reqs = append(reqs, rq.Label+": "+rq.Src)
+			}
+		}
+		if len(reqs) > 0 {
+			trusted["preconditions of "+r.ID+" are assumed on entry; they are discharged only at call sites inside functions under contract (listed as #pre obligations)"] = true
+		}
+		funcs = append(funcs, map[string]interface{}{"function": r.ID, "arith": r.Arith, "loops": loops, "inlined": r.Inlined, "callee_contracts_used": r.Called, "file": posOf(r.Fn, r.Fn.Pos()), "requires_assumed_on_entry": reqs})
 		for _, a := range r.Assumed {
 			trusted[a] = true
 		}
